@@ -86,6 +86,15 @@ def main():
     print(f"SEED {a.name} property={prop} demo_clean={rc_clean} demo_patched={res.get('demo_patched')} check={verdict} "
           f"{(caught[0]['violations'][0] if caught else '')}")
     print(json.dumps(res, indent=1)[:3000])
+    # record what was run and what came out next to the seeded change
+    meta['verification'] = {
+        'ran': [f'demo.py on /repo (exit {rc_clean})', f"demo.py on scratch worktree of /repo HEAD + patch (exit {res.get('demo_patched')})"]
+               + ([f"pytest {' '.join(t for t in meta.get('tests_run', []) if t.startswith('tests/'))} on the patched tree (exit {res.get('tests_rc')})"] if 'tests_rc' in res else [])
+               + [f"VERIF_REPO=<patched tree> VERIF_SEED={c['seed']} ./check {prop} --tier {a.tier} (exit {c['rc']})" for c in res.get('checks', [])],
+        'verdict': verdict,
+        'violation_lines': [v for c in res.get('checks', []) for v in c['violations']][:4],
+    }
+    json.dump(meta, open(os.path.join(d, 'meta.json'), 'w'), indent=1)
     os.makedirs(os.path.join(VERIF, 'out', 'seedtests'), exist_ok=True)
     json.dump(res, open(os.path.join(VERIF, 'out', 'seedtests', a.name + '.json'), 'w'), indent=1)
 
